@@ -215,6 +215,8 @@ def ledger_certificate(n: int, vu: bool, vs: bool, w: bool, reatt: bool = False,
     legacy = part() % 2 == 1
     alter = part() // 2
     n = enum(n, 1, 4)
+    if alter != 0:
+        reatt, udf = False, 0          # (input certificate / UD form vary in the "nothing altered" partitions only)
     udf = enum(udf, 0, 3)
     # the UD value as the operator gives it: plain hex | 0x-prefixed | 0x-prefixed with zero leading bytes | plain with zero leading bytes
     ud_bytes = [pat(32, 5), pat(32, 5), bytes(2) + pat(30, 6), bytes(1) + pat(31, 7)][udf]
